@@ -223,3 +223,31 @@ void bad_par_abs__abs__ep9_mul_cof(ep_t r, const ep_t p) {
 			ep_mul_big(r, p, k);
 	}
 }
+
+void ed_map_ell2_5mod8_st(ed_t p, const fp_t t);
+
+/* the three Edwards doublings written as a counted loop (behaviour-preserving) */
+void ok_map_loop_st_map(ed_t p, const uint8_t *msg, size_t len) {
+	fp_t t;
+	fp_null(t);
+	fp_new(t);
+	fp_read_bin(t, msg, len);
+	ed_map_ell2_5mod8_st(p, t);
+	for (int i = 0; i < 3; i++) {
+		ed_dbl(p, p);
+	}
+	fp_free(t);
+}
+
+/* two doublings only */
+void bad_map_cof__two_st_map(ed_t p, const uint8_t *msg, size_t len) {
+	fp_t t;
+	fp_null(t);
+	fp_new(t);
+	fp_read_bin(t, msg, len);
+	ed_map_ell2_5mod8_st(p, t);
+	for (int i = 0; i < 2; i++) {
+		ed_dbl(p, p);
+	}
+	fp_free(t);
+}
